@@ -1,4 +1,5 @@
 from rogw.tranp.data.meta.types import ModuleMeta, ModuleMetaFactory
+from rogw.tranp.errors import Errors
 from rogw.tranp.file.loader import ISourceLoader
 from rogw.tranp.lang.annotation import implements, injectable
 from rogw.tranp.lang.locator import Invoker
@@ -89,9 +90,15 @@ class ModuleLoader(IModuleLoader):
 		Args:
 			module: モジュール
 		"""
-		for proc in self.processors():
-			if not proc(module, self.db):
-				break
+		try:
+			for proc in self.processors():
+				if not proc(module, self.db):
+					break
+		except Errors.Error:
+			raise
+		except Exception as e:
+			# XXX プリプロセッサー内の未ハンドリングの不特定エラーはアプリケーション例外として送出 @see Procedure.__emit
+			raise Errors.Fatal(module.path, 'Unhandled error', e) from e
 
 
 @injectable
